@@ -67,6 +67,8 @@ QUERIES = [
     ('aggregate', 'select a1, ARRAY_AGG(a3), SUM(a3) group by a1'),
     ('aggregate', 'select count(*), sum(a3)'),
     ('unnest', "select a1, unnest(a3.split(';'))"),
+    ('unnest', 'select a1, unnest(a3)'),
+    ('unnest', 'select unnest(a3), a2 where NR > 1 limit 3'),
     ('join', 'select * join {J} on a2 == b1'),
     ('join', 'select a1, b.* left join {J} on a2 == b1'),
     ('join', 'select a.*, b2 join {J} on a2 == b1 order by b2'),
@@ -110,6 +112,10 @@ def generate(rng, tier, idx):
         rows[rng.randrange(len(rows))][0] = 'bad'          # runtime error at that record for int(a1)
     world = {'rows': rows, 'join_rows': workload.gen_join_table(rng, rng.choice([0, 1, 2, 3, 4])),
              'header': rng.random() < 0.3, 'list_quirks': None, 'wal': rng.random() < 0.3, 'df_variety': rng.random() < 0.4}
+    if world['header'] and rng.random() < 0.25:
+        world['header_style'] = 'hostile'
+    if rng.random() < 0.08:
+        world['bom_first'] = True
     if not world['df_variety'] and rng.random() < 0.35:
         # all-object frames with missing-value markers of every kind (what read_csv(dtype=object) / read_sql hand over)
         world['df_gaps'] = [[rng.randrange(8), rng.randrange(3), rng.choice(['nan', 'na', 'nat', 'none', 'nan']), rng.choice(['A', 'A', 'B'])] for _ in range(rng.choice([1, 2, 3]))]
@@ -185,6 +191,10 @@ class World(object):
         self.has_list_cells = False
         self.header = ['id', 'name', 'tag'] if spec['header'] else None
         self.jheader = ['key', 'jval', 'jtag'] if spec['header'] else None
+        if spec['header'] and spec.get('header_style') == 'hostile':
+            # legal column names that are awkward as identifiers: blanks, non-ASCII letters, keywords, names of RBQL's own variables
+            self.header = ['i d', 'n\u00e4me', 'select']
+            self.jheader = ['from', 'a1', 'NR']
         # python lists (may be quirky)
         self.A = [list(r) for r in rows]
         self.B = [list(r) for r in jrows]
@@ -200,8 +210,8 @@ class World(object):
             if q.get('list_cells') and self.A:
                 # mutable cells (e.g. the result of an earlier ARRAY_AGG query): outside the property's stated quantifier of
                 # string / None cells, included because an in-place operation on such a cell is still a change of the source
-                for r in self.A:
-                    r[-1] = [r[0], 'w']
+                for i, r in enumerate(self.A):
+                    r[-1] = [r[0], 'w'] if i % 2 else [r[0], 'w', '']      # (some end in an empty string, as "a;b;".split(";") does)
                 self.has_list_cells = True
             if q.get('tuple_rows'):
                 # records that are tuples (cursor.fetchall(), zip(...)): the containers themselves must be left alone too
@@ -211,6 +221,16 @@ class World(object):
                 self.B[0] = self.B[0][:2]
                 if len(self.B) > 1:
                     self.B[-1] = type(self.B[-1])(list(self.B[-1]) + ['w'])
+        if spec.get('bom_first'):
+            # text decoded as utf-8 rather than utf-8-sig: the very first string of the table (or of its column names) starts with U+FEFF
+            if self.header:
+                self.header[0] = '\ufeff' + self.header[0]
+                self.jheader[0] = '\ufeff' + self.jheader[0]
+            else:
+                if self.A and isinstance(self.A[0], list) and isinstance(self.A[0][0], str):
+                    self.A[0][0] = '\ufeff' + self.A[0][0]
+                if self.B and isinstance(self.B[0], list) and isinstance(self.B[0][0], str):
+                    self.B[0][0] = '\ufeff' + self.B[0][0]
         self.header_snap = list(self.header) if self.header else None
         self.jheader_snap = list(self.jheader) if self.jheader else None
         self.A_snap = deep(self.A)
@@ -668,6 +688,16 @@ def shrinks(sc):
         c = dict(sc)
         c['world'] = dict(w)
         c['world']['df_gaps'] = gaps[:i] + gaps[i + 1:]
+        yield c
+    if w.get('bom_first'):
+        c = dict(sc)
+        c['world'] = dict(w)
+        c['world'].pop('bom_first')
+        yield c
+    if w.get('header_style'):
+        c = dict(sc)
+        c['world'] = dict(w)
+        c['world'].pop('header_style')
         yield c
     for flag in ('header', 'wal', 'df_variety'):
         if w.get(flag):
